@@ -22,7 +22,8 @@ PROP = "C07"
 LEVEL = "exploration"
 RULE = ("seeded scenarios. Network kind: parent-closed topology of 2..8 addresses of which a seeded subset is absent (next hop "
         "absent) or halted; histories (<= 12 calls, up to 3 in flight on different nodes) of write/send (direct, routed, to self, "
-        "traffic_direct), multicast, node_address=, multicast_level=, fragmented and single-frame, ack and non-ack types. Mesh "
+        "traffic_direct), multicast, node_address=, multicast_level=, MCU crash+restart (fresh object on the still running radio), "
+        "fragmented and single-frame, ack and non-ack types. Mesh "
         "kind: master + 1..3 mesh nodes with histories of renew_address, release_address, lookup_address, lookup_node_id, "
         "check_connection(both modes), send, write. Faults: packet/ACK loss ordinals, all ACKs of one node lost, NETWORK_ACK "
         "frames dropped, blackout windows, MCU jitter and stalls. The invariant is evaluated after every public call of every "
@@ -31,7 +32,7 @@ ASSUMPTIONS = ["reference physical-address translation = TMRh20 RF24Network::pip
                "chip model: RX session = PWR_UP, PRIM_RX, CE high, settled or busy with an auto-ACK"]
 CLAUSES = {"listening": "powered up in receive mode with CE high, six pipes on the node's own addresses, auto-ack 0x3E, dynamic payloads on",
            "hears": "never deaf to its parent, children or multicasts"}
-PROBES = ["max_rt"]
+PROBES = ["max_rt", "mcu_restart"]
 SHRINK_KEYS = ("ops", "faults")
 CHUNK = 6
 MAX_INCONCLUSIVE = 0.03
@@ -98,6 +99,8 @@ def make(i, base_seed, tier):
                 ops.append({"node": who, "op": "multicast_level", "v": rng.randint(0, 4)})
             elif o < 0.9:
                 ops.append({"node": who, "op": "node_address", "v": rng.choice([who, rng.choice(topo), 0o5, 0o15, 0o7, 0o4444])})
+            elif o < 0.95:
+                ops.append({"node": who, "op": "restart"})
             else:
                 ops.append({"node": who, "op": "settle"})
         scn.update({"nodes": nodes, "ops": ops, "tx_timeout": rng.choice([5, 25]), "route_timeout": rng.choice([15, 75])})
@@ -249,6 +252,9 @@ def _run_net(scn, w, net, res):
                 return node.write(RF24NetworkFrame(h, data))
             if op["op"] == "multicast":
                 return node.multicast(payload(op["seed"], op["len"]), op["type"], op["level"])
+            if op["op"] == "restart":
+                # crash + restart of the MCU at this point of the history: the radio keeps its registers, FIFOs, CE and mode
+                return net.restart(net.nodes[op["node"]])
             if op["op"] == "multicast_level":
                 node.multicast_level = op["v"]
             elif op["op"] == "node_address":
